@@ -232,6 +232,11 @@ class MV:
         self.output = T(snap.getf(self.dag, 'output_node'), snap.state)
         self.tasks_ref = snap.getf(mgr, '_coro_tasks')
         self.tasks = snap.getf(self.tasks_ref, 'elems')
+        if not isinstance(self.tasks, SymSet):
+            ts = SymSet.empty()
+            for x in self.tasks:
+                ts = ts.add(lift(x, snap.state))
+            self.tasks = ts
         self.node_map = snap.getf(snap.getf(self.dag, 'node_map'), 'map')
         self.input_kwargs_ref = snap.getf(self.ctx, 'input_kwargs')
         self.input_kwargs = snap.getf(self.input_kwargs_ref, 'map')
